@@ -15,6 +15,7 @@ META = {
     'not_decided': 'bounded memory over unbounded create/reap histories; exactly-once reaping under every interleaving',
     'assumptions': ['a finished thread\'s record is reachable only through the id handed to the application'],
 }
+META['explanation'] += ' Detach sets the flag under the record lock on the not-finished edge (C13.11) and the detach state comes from an initialised attribute (C13.12).'
 
 NATIVE = 'myth_if_native.c'
 TH = 'myth_thread.'
